@@ -855,8 +855,33 @@ def r20_then_with(src, ctx):
                 break
         if not hit: return src
 
+def r21_ref_eq(src, ctx):
+    """R21: `x == &a.b` / `x != &a.b` (x an identifier, so a reference) -> `*x == a.b`: the std impl `PartialEq<&B> for &A` is defined as
+    `PartialEq::eq(*self, *other)`; this Verus connects `==` on values to the type's specification but not `==` on two references."""
+    ct = _ct(src)      # punctuation is tokenised one character at a time
+    edits = []
+    def adj(a, b): return ct[a].e == ct[b].s
+    for i in range(2, len(ct) - 4):
+        if not (ct[i].k == 'id' and ct[i + 1].t in ('=', '!') and ct[i + 2].t == '=' and adj(i + 1, i + 2) and ct[i + 3].t == '&' and ct[i + 4].k == 'id' and ct[i + 4].t != 'mut'): continue
+        if ct[i + 3].e != ct[i + 4].s: continue
+        prev = ct[i - 1].t
+        if prev not in ('&', '|', '(', 'if', '{', '=', ',', 'return'): continue
+        if prev in ('&', '|') and not (ct[i - 2].t == prev and adj(i - 2, i - 1)): continue       # `&& x` / `|| x`, not `&x`
+        if prev == '=' and ct[i - 2].t in ('=', '!', '<', '>'): continue
+        j = i + 4
+        while j + 2 < len(ct) and ct[j + 1].t == '.' and ct[j + 2].k == 'id': j += 2
+        if j + 1 >= len(ct): continue
+        nx = ct[j + 1].t
+        if nx not in ('&', '|', ')', ',', '{', ';', '}'): continue
+        if nx in ('&', '|') and not (j + 2 < len(ct) and ct[j + 2].t == nx and adj(j + 1, j + 2)): continue
+        edits.append((ct[i].s, ct[i].s, '*'))
+        edits.append((ct[i + 3].s, ct[i + 3].e, ''))
+        ctx.log.append(('R21', src[ct[i].s:ct[j].e], '*' + src[ct[i].s:ct[i + 3].s] + src[ct[i + 4].s:ct[j].e]))
+    return apply_edits(src, edits)
+
 def apply_all(src, ctx):
     src = r0_strip(src, ctx)
+    src = r21_ref_eq(src, ctx)
     src = r17_range_inclusive(src, ctx)
     src = r16_ref_pattern(src, ctx)
     src = r14_wild_closure(src, ctx)
